@@ -591,6 +591,8 @@ enum Sh {
     T(usize, Kind),
     /// boolean literal (no marker)
     Lit(bool),
+    /// `gop + k`: a binary operator over a *variable* and a literal; the object's `+` prints <k>, yields k
+    VarOp(usize),
     /// `array(LITERAL n, INIT)`: the initializer runs exactly n times (n = 0 … 6)
     ArrayLitSize(usize, Box<Sh>),
     /// `sz <- 2; array(sz, begin sz <- sz + 3; INIT end)`: the size is read once, before any element
@@ -632,6 +634,10 @@ struct ShGen<'r> {
 impl<'r> ShGen<'r> {
     fn t(&mut self, k: Kind) -> Sh {
         self.next += 1;
+        // an Int operand is sometimes an operator expression over a variable instead of a call
+        if k == Kind::Int && self.rng.chance(1, 6) {
+            return Sh::VarOp(self.next);
+        }
         Sh::T(self.next, k)
     }
     /// an operand of kind `k`: a tracer, or (depth permitting) a nested shape yielding that kind
@@ -826,6 +832,7 @@ impl ShEmit {
         match s {
             Sh::T(k, kind) => tracer(*k, *kind),
             Sh::Lit(b) => AST::Boolean(*b),
+            Sh::VarOp(k) => AST::call_method(AST::access_variable(idn("gop")), idn("+"), vec![AST::Integer(*k as i32)]),
             Sh::ArrayLitSize(n, i) => AST::array(AST::Integer(*n as i32), self.ast(i)),
             Sh::ArrayVarSize(i) => AST::block(vec![
                 AST::assign_variable(idn("sz"), AST::Integer(2)),
@@ -885,6 +892,7 @@ fn predict(s: &Sh, out: &mut Vec<String>, loops: &mut usize) {
     match s {
         Sh::T(k, _) => out.push(format!("<{}>", k)),
         Sh::Lit(_) => {}
+        Sh::VarOp(k) => out.push(format!("<{}>", k)),
         Sh::ArrayLitSize(n, i) => {
             let times = if let Sh::FieldGet(_) = **i { 1 } else { *n };
             for _ in 0..times {
@@ -967,7 +975,7 @@ fn predict(s: &Sh, out: &mut Vec<String>, loops: &mut usize) {
 /// contexts (array initializers, loop bodies).
 fn has_nested_loop(s: &Sh, repeated: bool) -> bool {
     match s {
-        Sh::T(..) | Sh::Lit(_) => false,
+        Sh::T(..) | Sh::Lit(_) | Sh::VarOp(_) => false,
         Sh::ArrayLitSize(_, i) | Sh::ArrayVarSize(i) => has_nested_loop(i, true),
         Sh::Loop(b) => repeated || has_nested_loop(b, true),
         Sh::ArrayCompound(n, i) => has_nested_loop(n, repeated) || has_nested_loop(i, true),
@@ -1003,6 +1011,7 @@ function id9(a, b, c, d, e, f, g, h, i) -> a;
 function id10(a, b, c, d, e, f, g, h, i, j) -> begin print(\"[~~~]\", h, i, j); a end;
 function id12(a, b, c, d, e, f, g, h, i, j, k, l) -> begin print(\"[~~~~]\", i, j, k, l); a end;
 let cnt = 0;
+let gop = object begin function +(k) -> begin print(\"<~>\", k); k end; end;
 let sz = 0;
 let gv = 0;
 let garr = array(3, 5);
